@@ -274,7 +274,7 @@ class Sim:
             "deep": observe.deep(tr, len(self.emissions)) if need_deep else None,
             "nem": len(self.emissions),
         }
-        if self.props & {"C03", "C04", "C05"}:
+        if self.props & {"C03", "C04", "C05", "C06"}:
             g = nx.DiGraph()
             g.add_nodes_from(tr.graph.nodes)
             g.add_edges_from(tr.graph.edges)
@@ -434,6 +434,25 @@ class Sim:
                 self.violate("C06", o, m, op, tags)
                 return
             self.stat("C06.eval")
+            if is_edit and cls == "accepted" and "tid" in pre:
+                # an id that did not exist before this edit was issued by it; if it now sits
+                # on two different segments (components), it was handed out while in use
+                for key, old_ids, blocks, what in (
+                    (tr.features.tracklet_key, set(pre["tid"].values()), models.segments(tr.graph), "track"),
+                    (tr.features.lineage_key, set(pre["lid"].values()), models.components(tr.graph), "lineage"),
+                ):
+                    if key is None or key not in tr.annotators.features:
+                        continue
+                    fresh = {}
+                    for i, b in enumerate(blocks):
+                        for n in b:
+                            v = tr.graph.nodes[n].get(key)
+                            if v is not None and v not in old_ids:
+                                fresh.setdefault(v, set()).add(i)
+                    for v, bl in fresh.items():
+                        if len(bl) > 1:
+                            self.violate("C06", "C06.next_id", f"{what} id {v} was newly issued by this {kind} and given to {len(bl)} different {'segments' if what == 'track' else 'components'}: it was issued again while already in use", op, tags)
+                            return
             qe = self.opts.get("query_every", 5)
             if self.step_no % qe == 0:
                 ids = self.track_ids_on_graph()
